@@ -784,6 +784,7 @@ type vxC13Arrival struct {
 	dead        bool // the connection was closed before the scheduled answer
 	Outstanding int  // requests that were waiting for a (scheduled) answer when this one arrived
 	AfterReturn bool
+	ArrAt       time.Time
 	Outcome     vxC13Outcome
 }
 
@@ -836,7 +837,7 @@ func (w *vxC13World) handler(h int) func(rc *vnode.ReqCtx) {
 			}
 		}
 		oc := w.c.outcome(h, k)
-		a := &vxC13Arrival{Host: h, K: k, CL: cl, Kind: req.Kind, ArrEv: w.ev, Outstanding: w.pending, AfterReturn: w.returned, Outcome: oc, conn: rc.Conn}
+		a := &vxC13Arrival{Host: h, K: k, CL: cl, Kind: req.Kind, ArrEv: w.ev, Outstanding: w.pending, AfterReturn: w.returned, ArrAt: time.Now(), Outcome: oc, conn: rc.Conn}
 		w.arrivals = append(w.arrivals, a)
 		doCancel := w.c.Cancel.Mode == "arrival" && g == w.c.Cancel.K
 		cancel := w.cancel
@@ -930,6 +931,7 @@ type vxC13Obs struct {
 	resText  string
 	arrivals []*vxC13Arrival
 	returnEv int64
+	returnAt time.Time
 	attempts int
 }
 
@@ -1102,10 +1104,12 @@ func vxC13Execute(c *vxC13Case, timeoutScale int) (*vxC13Obs, error) {
 	case <-time.After(30 * time.Second):
 		return nil, fmt.Errorf("no result after 30 s (a result is due after at most %v per attempt)", timeout)
 	}
+	returnAt := time.Now()
 	w.mu.Lock()
 	w.ev++
 	w.returned = true
 	w.returnEv = w.ev
+	pendingAtReturn := w.pending
 	w.mu.Unlock()
 	if rerr != nil && strings.HasPrefix(rerr.Error(), "panic in the driver") {
 		return nil, rerr
@@ -1113,6 +1117,12 @@ func vxC13Execute(c *vxC13Case, timeoutScale int) (*vxC13Obs, error) {
 	if c.specMode() {
 		// let losing executions show what they still send
 		time.Sleep(time.Duration(c.Spec.DelayMs)*time.Millisecond + 2*time.Millisecond)
+	}
+	if c.specMode() && pendingAtReturn > 0 {
+		// an attempt of a losing execution is still waiting for its scripted answer: deliver it and watch
+		// whether that execution goes on sending requests although the caller already has its result
+		w.wg.Wait()
+		time.Sleep(70 * time.Millisecond)
 	}
 	w.mu.Lock()
 	for _, t := range w.timers {
@@ -1123,7 +1133,7 @@ func vxC13Execute(c *vxC13Case, timeoutScale int) (*vxC13Obs, error) {
 	w.mu.Unlock()
 	w.wg.Wait()
 
-	o := &vxC13Obs{returnEv: w.returnEv, attempts: attempts()}
+	o := &vxC13Obs{returnEv: w.returnEv, returnAt: returnAt, attempts: attempts()}
 	o.res, o.resText = vxC13Classify(rerr)
 	w.mu.Lock()
 	o.arrivals = append(o.arrivals, w.arrivals...)
@@ -1262,7 +1272,17 @@ func vxC13Judge(c *vxC13Case, o *vxC13Obs) error {
 		return fmt.Errorf("%s", what)
 	}
 
-	// speculative execution of an idempotent statement: several executions share the host iterator
+	// speculative execution of an idempotent statement: several executions share the host iterator.
+	// Once the caller has its one result the executor's context is cancelled: attempts already on the wire
+	// may complete, but nothing new may be sent (Conn.exec refuses a cancelled context before writing). A
+	// request that was written just before the cancel reaches the in-memory node within microseconds, so
+	// an arrival well after the return (>= 40 ms) is a request that was *started* after it.
+	for _, a := range o.arrivals {
+		if a.AfterReturn && !o.returnAt.IsZero() && a.ArrAt.Sub(o.returnAt) >= 40*time.Millisecond {
+			return fmt.Errorf("request h%d#%d reached a server %v after the caller had received its result (%s): attempts continue after the result was returned",
+				a.Host, a.K, a.ArrAt.Sub(o.returnAt).Round(time.Millisecond), o.res)
+		}
+	}
 	spec := c.Spec.Attempts
 	budget := (1 + spec) * c.perExecBudget()
 	desc := func() string {
